@@ -20,10 +20,6 @@ theorem Mem.freeT_nrefused (m : Mem) (t : Triple) : (m.freeT t).nrefused = m.nre
   cases t
   · simp only [Mem.freeT_conf]; unfold Mem.free; split <;> rfl
   · simp only [Mem.freeT]; split <;> rfl
-theorem Mem.freeT_sched (m : Mem) (t : Triple) : (m.freeT t).sched = m.sched := by
-  cases t
-  · simp only [Mem.freeT_conf]; unfold Mem.free; split <;> rfl
-  · simp only [Mem.freeT]; split <;> rfl
 theorem Mem.freeN_sched (t : Triple) : ∀ (n : Nat) (m : Mem), (Mem.freeN t n m).sched = m.sched
   | 0, _ => rfl
   | k + 1, m => by simp only [Mem.freeN]; rw [Mem.freeN_sched t k, Mem.freeT_sched]
@@ -97,6 +93,7 @@ structure StepOk (dbl : Bool) (P : Params) (t1 t2 : Triple) (a b : List Nat) (op
     (r : Out × (Chain × Chain) × Mem) (a' b' : List Nat) (t1' t2' : Triple) : Prop where
   state : r.2.1 = (ofList t1' a', ofList t2' b')
   triples : (t1' = t1 ∧ t2' = t2) ∨ (t1' = t2 ∧ t2' = t1)
+  keep : op ≠ .swapRoles → t1' = t1 ∧ t2' = t2
   atomic : r.1.st = some .errAlloc → a' = a ∧ b' = b ∧ t1' = t1 ∧ t2' = t2 ∧ r.1 = { st := some .errAlloc }
   refines : r.1.st ≠ some .errAlloc → (r.1, (a', b')) = LSeq.step dbl P (a, b) op
   fault : r.2.2.fault = m.fault
@@ -117,7 +114,7 @@ theorem StepOk.of {dbl : Bool} {P : Params} {t1 t2 : Triple} {a b : List Nat} {o
     (hri : out.st = some .errAlloc ↔ 0 < ref := by simp) :
     StepOk dbl P t1 t2 a b op m r a' b t1 t2 := by
   subst hr
-  refine ⟨rfl, Or.inl ⟨rfl, rfl⟩, fun h => ⟨(hat h).1, rfl, rfl, rfl, (hat h).2⟩, href, eff.fault, eff.frame, ?_,
+  refine ⟨rfl, Or.inl ⟨rfl, rfl⟩, fun _ => ⟨rfl, rfl⟩, fun h => ⟨(hat h).1, rfl, rfl, rfl, (hat h).2⟩, href, eff.fault, eff.frame, ?_,
     fun hs => ⟨eff.sched hs, hna hs⟩, by simp only []; rw [eff.nref, hri]; omega⟩
   intro t
   simp only [ownedBy]
@@ -135,7 +132,7 @@ theorem StepOk.ofMove {dbl : Bool} {P : Params} {t : Triple} {a b : List Nat} {o
     (hcount : a.length + b.length = a'.length + b'.length) :
     StepOk dbl P t t a b op m r a' b' t t := by
   subst hr
-  refine ⟨rfl, Or.inl ⟨rfl, rfl⟩, fun h => absurd h hne, fun _ => href, rfl, Mem.Frame.rfl' t m, ?_,
+  refine ⟨rfl, Or.inl ⟨rfl, rfl⟩, fun _ => ⟨rfl, rfl⟩, fun h => absurd h hne, fun _ => href, rfl, Mem.Frame.rfl' t m, ?_,
     fun hs => ⟨hs, hne⟩, ⟨fun h => absurd h hne, fun h => absurd h (Nat.lt_irrefl _)⟩⟩
   intro t'
   simp only [ownedBy]
@@ -338,7 +335,7 @@ theorem step_ok_aux (P : Params) (t1 t2 : Triple) (a b : List Nat) (m : Mem) (hl
   | .foreach, _ => ⟨a, b, t1, t2, StepOk.of { vals := a } _ m 0 0
         (by simp [step, foreach_ofList]) (by simp) (by intro _; simp [LSeq.step]) (Mem.Eff.rfl' t1 m) rfl (by intro _; simp)⟩
   | .swapRoles, _ => by
-    refine ⟨b, a, t2, t1, ⟨by simp [step], Or.inr ⟨rfl, rfl⟩, by simp [step], by intro _; simp [step, LSeq.step], rfl,
+    refine ⟨b, a, t2, t1, ⟨by simp [step], Or.inr ⟨rfl, rfl⟩, fun h => absurd rfl h, by simp [step], by intro _; simp [step, LSeq.step], rfl,
       Mem.Frame.rfl' t1 m, ?_, fun hs => ⟨hs, by simp [step]⟩, by simp [step]⟩⟩
     intro t
     simp only [step, ownedBy]
